@@ -119,32 +119,41 @@ structure SubParams where
   publishes = `(tag, size, ttl)` -/
   handler : Option (Bool × Bool × List (Nat × Nat × Nat))
 
-/-- run the cache-empty handler's publishes; returns hub and the buffered entries (every
-publication reaches the subscribing client's buffer; filtered ones as placeholders) -/
-def Hub.handlerPubs (h : Hub) (pass : Pub → Bool) : List (Nat × Nat × Nat) → Hub × List MPub
-  | [] => (h, [])
+/-- run the cache-empty handler's publishes; returns hub, the buffered entries (every
+publication reaches the subscribing client's buffer; filtered ones as placeholders) and the
+publications themselves -/
+def Hub.handlerPubs (h : Hub) (pass : Pub → Bool) : List (Nat × Nat × Nat) → Hub × List MPub × List Pub
+  | [] => (h, [], [])
   | (tag, size, ttl) :: rest =>
     let (h', p, _) := h.publish tag size ttl 0
-    let (h'', l) := Hub.handlerPubs h' pass rest
-    (h'', toM pass p :: l)
+    let (h'', l, ps) := Hub.handlerPubs h' pass rest
+    (h'', toM pass p :: l, p :: ps)
+
+structure SubResult where
+  hub : Hub
+  out : Outcome
+  /-- the cache-empty handler was invoked -/
+  invoked : Bool
+  /-- what it published -/
+  hpubs : List Pub
 
 /-- one client subscribe against the hub (`subscribeCmd` with `EnableRecovery`). -/
-def Hub.subscribe (h : Hub) (sp : SubParams) : Hub × Outcome :=
+def Hub.subscribe (h : Hub) (sp : SubParams) : SubResult :=
   let (h1, s1) := h.access 0
   let autoCache := sp.autoRec && sp.cacheMode
   if !(sp.recover || autoCache) then
-    (h1, plainSubscribe sp.cacheMode sp.delta s1 sp.req [])
+    ⟨h1, plainSubscribe sp.cacheMode sp.delta s1 sp.req [], false, []⟩
   else if !sp.cacheMode then
-    (h1, streamSubscribe h.cfgLimit s1 sp.req sp.filt.pass [])
+    ⟨h1, streamSubscribe h.cfgLimit s1 sp.req sp.filt.pass [], false, []⟩
   else
     let lr1 := recoverCache h.cfgLimit s1 sp.filt
     match lr1, sp.handler with
     | none, some (err, populated, pubs) =>
       -- the handler is invoked: its publishes run before it returns
-      let (h2, buffered) := h1.handlerPubs sp.filt.pass pubs
+      let (h2, buffered, ps) := h1.handlerPubs sp.filt.pass pubs
       let (h3, s2) := h2.access 0
       let hr : HandlerReply := if err then some none else some (some populated)
-      (h3, cacheSubscribe h.cfgLimit s1 s2 sp.filt sp.req sp.delta hr buffered)
-    | _, _ => (h1, cacheSubscribe h.cfgLimit s1 s1 sp.filt sp.req sp.delta none [])
+      ⟨h3, cacheSubscribe h.cfgLimit s1 s2 sp.filt sp.req sp.delta hr buffered, true, ps⟩
+    | _, _ => ⟨h1, cacheSubscribe h.cfgLimit s1 s1 sp.filt sp.req sp.delta none [], false, []⟩
 
 end CentrifugeVerif.Recovery
